@@ -456,6 +456,8 @@ type stackB struct {
 func (w *worldB) newStack(cfg configB) *stackB {
 	c := cfg.RBAC
 	w.cur = &c
+	// the fake clientset logs every action it is asked to perform; nobody reads that log
+	w.client.Kube().(*fake.Clientset).Fake.ClearActions()
 	mc := multicluster.NewFakeController()
 	creds := kubesecrets.NewMulticluster(clusterID, mc)
 	mc.Add(clusterID, w.client, w.stop)
